@@ -125,10 +125,27 @@ func Check(before *world.World, ev world.Event, pass *world.Pass, after *world.W
 			if strings.Join(got, ",") != strings.Join(want, ",") {
 				bad("controllerOf-mismatch", "status write #%d with Available=True reports controllerOf=%v but the pass saw %v under the ObjectSet's control", i, got, want)
 			}
-		} else {
-			// every entry must have been seen controlled, whatever Available says? The statement
-			// binds controllerOf on Available=True writes only (DESIGN.md C06 reading); not judged.
-			_ = 0
+		} else if osw.Lifecycle(post) != "Archived" && !kmodel.Terminating(post) {
+			// completeness is demanded only with Available=True, but no write of a rollout pass may
+			// list an object which this very pass saw under somebody else's control ("every entry
+			// ... was seen in that pass to be controlled by the ObjectSet"); entries the pass did
+			// not look at (error paths that carry the previous list) are not judged
+			for _, p := range phases {
+				if p.Class != "" {
+					continue
+				}
+				for _, ok := range p.Objects {
+					resp, seen := v.LastResponse(ok, i)
+					if !seen || resp == nil || world.ControlledBy(resp, false, id) {
+						continue
+					}
+					for _, e := range osw.ControllerOfList(post) {
+						if e == osw.KeyString(ok) {
+							bad("controllerOf-lists-object-seen-uncontrolled", "status write #%d lists %s in controllerOf although this pass read it under the control of %v", i, e, world.Controllers(resp, false))
+						}
+					}
+				}
+			}
 		}
 		newSucceeded := condTrue(post, "Succeeded") && (prev == nil || !condTrue(prev, "Succeeded"))
 		if newSucceeded {
@@ -362,7 +379,7 @@ func init() {
 		ID:    "C06",
 		Level: "model_checking",
 		Assumptions: []string{
-			"controllerOf is judged on status writes that carry Available=True (reading of the statement, DESIGN.md C06)",
+			"controllerOf is judged for exactness on status writes that carry Available=True; on other writes of a rollout pass only entries that the same pass read under somebody else's control are rejected (reading of the statement, DESIGN.md C06)",
 			"successDelaySeconds = 0, so Succeeded does not depend on the wall clock",
 		},
 		Subs: []*checks.Sub{{Name: "bfs", Shards: func(t string) int {
